@@ -847,7 +847,7 @@ func otherBackendC14(dir string, c *Case) (*Violation, *Case) {
 	ops := make([]*Op, len(c.Ops))
 	for i, op := range c.Ops {
 		cp := *op
-		if cp.Kind == "create" {
+		if cp.Kind == "create" || cp.Kind == "load" {
 			cp.Backend = "file"
 		}
 		if cp.Kind == "st" && cp.St.Call == "new" {
